@@ -4,6 +4,7 @@ package main
 var pureFunSpecs = []pfSpec{
 	{pkg: "x/liquidity/amm", fn: "Deposit", coq: "gen_amm_Deposit"},
 	{pkg: "x/liquidity/amm", fn: "Withdraw", coq: "gen_amm_Withdraw"},
+	{pkg: "x/liquidity/amm", fn: "InitialPoolCoinSupply", coq: "gen_amm_InitialPoolCoinSupply"},
 	{pkg: "x/liquidity/amm", fn: "inv", coq: "gen_amm_inv"},
 	{pkg: "x/liquidity/amm", fn: "DeriveTranslation", coq: "gen_amm_DeriveTranslation"},
 	{pkg: "x/liquidity/amm", fn: "ValidateRangedPoolParams", coq: "gen_amm_ValidateRangedPoolParams"},
@@ -17,6 +18,13 @@ var pureFunSpecs = []pfSpec{
 		reads: []string{"GetAssetRatesParams"}},
 	{pkg: "x/lend/keeper", recv: "Keeper", fn: "GetLendAPRByAssetIDAndPoolID", coq: "gen_lend_GetLendAPR",
 		reads: []string{"GetAssetRatesParams"}},
+	{pkg: "x/lend/keeper", recv: "Keeper", fn: "UpdateAPR", coq: "gen_lend_UpdateAPR",
+		reads: []string{"GetAssetStatsByPoolIDAndAssetID"}},
+	{pkg: "x/lend/keeper", recv: "Keeper", fn: "GetAverageBorrowRate", coq: "gen_lend_GetAverageBorrowRate",
+		errs: map[string]int{"types.ErrAverageBorrowRate": 8}},
+	{pkg: "x/lend/keeper", recv: "Keeper", fn: "GetSavingRate", coq: "gen_lend_GetSavingRate",
+		reads: []string{"GetAssetRatesParams"}},
+	{pkg: "x/lend/keeper", recv: "Keeper", fn: "GetReserveRate", coq: "gen_lend_GetReserveRate"},
 	// x/auctionsV2/keeper/maths.go (C10)
 	{pkg: "x/auctionsV2/keeper", fn: "Multiply", coq: "gen_auctionsV2_Multiply"},
 	{pkg: "x/auctionsV2/keeper", recv: "Keeper", fn: "GetCollalteralTokenInitialPrice", coq: "gen_auctionsV2_InitialPrice"},
@@ -32,6 +40,19 @@ var pureFunSpecs = []pfSpec{
 	{pkg: "x/market/keeper", recv: "Keeper", fn: "CalcAssetPrice", coq: "gen_market_CalcAssetPrice",
 		reads: []string{"GetAsset", "GetTwa"},
 		errs:  map[string]int{"assetTypes.ErrorAssetDoesNotExist": 3, "types.ErrorPriceNotActive": 10}},
+	// x/market/keeper/oracle.go (C17).  cell = the Twa record of the asset: read, rewritten and re-read
+	{pkg: "x/market/keeper", recv: "Keeper", fn: "CalculateTwa", coq: "gen_market_CalculateTwa"},
+	{pkg: "x/market/keeper", recv: "Keeper", fn: "UpdatePriceList", coq: "gen_market_UpdatePriceList",
+		cell: &pfCellSpec{get: "GetTwa", set: "SetTwa", keyField: "AssetID"}},
+	{pkg: "x/market/keeper", recv: "Keeper", fn: "GetLatestPrice", coq: "gen_market_GetLatestPrice",
+		reads: []string{"GetTwa"}, errs: map[string]int{"types.ErrorPriceNotActive": 1}},
+	// x/rewards/keeper/utils.go (C19), x/liquidationsV2/types/offset.go (C15, C09)
+	{pkg: "x/rewards/keeper", fn: "SplitTotalAmountPerEpoch", coq: "gen_rewards_SplitTotalAmountPerEpoch"},
+	{pkg: "x/liquidationsV2/types", fn: "GetSliceStartEndForLiquidations", coq: "gen_liquidationsV2_GetSliceStartEnd"},
+	{pkg: "x/liquidation/types", fn: "GetSliceStartEndForLiquidations", coq: "gen_liquidation_GetSliceStartEnd"},
+	// x/vault/keeper/vault.go (C03, C10)
+	{pkg: "x/vault/keeper", recv: "Keeper", fn: "GetAmountOfOtherToken", coq: "gen_vault_GetAmountOfOtherToken",
+		reads: []string{"GetAsset"}, errs: map[string]int{"assettypes.ErrorAssetDoesNotExist": 3}},
 	// x/liquidity/amm/util.go (C05).  reads = getters of the amm.Order interface = inputs
 	{pkg: "x/liquidity/amm", fn: "MatchableAmount", coq: "gen_amm_MatchableAmount",
 		reads: []string{"GetDirection", "GetOfferCoinAmount", "GetPaidOfferCoinAmount", "GetOpenAmount"}},
